@@ -430,7 +430,7 @@ def check(ctx: Ctx) -> None:
         seen = set()
         n_hist = 0
         for k, rec in enumerate(ex.records):
-            replay_history(ctx, rec, computed=(k % 23 == 0), variant=k)
+            replay_history(ctx, rec, computed=(k % (23 if ctx.tier == "quick" else 131) == 0), variant=k)
             n_hist += 1
         for rec in sim.records:
             key = json.dumps(rec, sort_keys=True)
